@@ -81,8 +81,8 @@ reg('C09', 'ENUM',
     'RFC readings chosen where the RFC leaves representation open are listed in the harness docstring', 'DESIGN.md section 5 C09')
 
 reg('C10', 'ENUM',
-    'bounded-exhaustive enumeration of all strings up to length L over a 17-symbol alphabet (+ systematic inflations crossing the 8-escape switch, token sequences, authority forms), against a byte-level reference codec',
-    'All strings <=5 (thorough <=6) over {% + 4 1 A f G / ? ~ - SP NUL LF, 2/3/4-byte code points}, their 9-fold repetitions, prefix/suffix inflations, token '
+    'bounded-exhaustive enumeration of all strings up to length L over an 18-symbol alphabet (+ systematic inflations crossing the 8-escape switch, token sequences, authority forms), against a byte-level reference codec',
+    'All strings <=5 (thorough <=6) over {% + 4 1 A f G / ? ~ - SP NUL LF DEL, 2/3/4-byte code points}, their 9-fold repetitions, prefix/suffix inflations, token '
     'sequences, 4 180 authorities (incl. the empty port) and all quoted-string candidates are run through decode/encode/encode_value/the check-escaped encoders/parse_host/'
     'unquote_string and compared with an independent reference (equality, output grammar, round trip, idempotence, fixed point).',
     'lone surrogates outside the alphabet; compiled cyutil twin not covered', 'DESIGN.md section 5 C10')
